@@ -24,7 +24,7 @@ F_EFAC = z3.Function("efac", z3.RealSort(), z3.ArraySort(z3.IntSort(), z3.RealSo
 
 F_FIN = z3.Function("fin", z3.IntSort(), z3.BoolSort())
 
-SPEC_FUNCS = {"only_element_read", "fin", "count_lt", "count_le", "evw", "sum_le", "sum_ext", "old", "forall", "exists", "implies", "iff", "wsum", "exp", "log", "fresh", "same", "ite", "length", "pow", "written", "nwrites", "at_loop_entry", "divides", "is_int"}
+SPEC_FUNCS = {"only_element_read", "fin", "count_lt", "count_le", "evw", "sum_le", "sum_ext", "old", "forall", "exists", "implies", "iff", "wsum", "exp", "log", "fresh", "same", "ite", "length", "pow", "written", "nwrites", "at_loop_entry", "divides", "is_int", "rdepth"}
 
 
 class Contract:
@@ -262,6 +262,8 @@ def spec_call(interp, node, st):
         return V.v_log(interp.ev(a[0], st))
     if fn == "pow":
         return V.v_pow(interp.ev(a[0], st), interp.ev(a[1], st))
+    if fn == "rdepth":
+        return V.F_RDEPTH(z(interp.ev(a[0], st), True), z(interp.ev(a[1], st), True))
     if fn == "length":
         v = interp.ev(a[0], st)
         r = interp.arr(st, v)
